@@ -73,6 +73,10 @@ def rand_invocation(rng, bindir):
         return [T("dzone"), rng.choice(["--next", "--prev"]), "America/New_York", dt], b"", "dzone-next"
     if k == 15:
         return [T("strptime"), "-i", "%d %b %Y %H:%M:%S", "-f", "%A %d %B %Y %T %j", "%02d %s %04d %s" % (D.d, cal.MON_ABBR[D.m - 1], D.y, hms(s))], b"", "strptime"
+    if k == 16 and rng.random() < .5:
+        # libc strptime/strftime behind the wrapper: the zone it sees must be UTC whatever TZ says
+        return [T("strptime"), "-t", "-i", "%Y-%m-%d %H:%M:%S", "-f", rng.choice(["%s", "%F %T %Z", "%s %z"]),
+                "%s %s" % (d, hms(s))], b"", "strptime-tz"
     if k == 16:
         return [T("dconv"), "-S", "-f", "%d.%m.%Y"], lines, "dconv-sed"
     if k == 17:
@@ -260,7 +264,40 @@ def locale_pair_task(task):
     return sh
 
 
+def names_task(task):
+    """a month name standing alone is read with the input locale and --base, whatever it spells (hsb_DE: Now = November)"""
+    bindir, seed, locs = task
+    import random
+    rng = random.Random(seed)
+    sh = Shard()
+    L = locmod.load()
+    for la in locs:
+        A = L[la]
+        for kind, spec in (("b", "%b"), ("B", "%B")):
+            names = A[kind]
+            env = dict(BASE_CFG)
+            env["VERIF_FAKE_NOW"] = str(rng.choice([x for x in NOWS if x]))
+            env["TZ"] = rng.choice(TZS)
+            argv = [str(bindir / "dconv"), "--from-locale", la, "--base", "2016-03-04", "-i", spec, "-f", "%Y-%m", "--"] + names
+            r = run(argv, env=env, cpu=10, wall=60)
+            sh.procs += 1
+            if sh.check_san(r, "names", "names:%s" % kind):
+                continue
+            got, _ = core.align_lines(names, r)
+            for i, (nm, g) in enumerate(zip(names, got)):
+                want = "2016-%02d" % (i + 1)
+                c = ("names", kind, "catch-phrase" if nm.lower() in ("now", "today", "time", "date", "tomo", "yday") else "plain")
+                if g == want:
+                    sh.ok("names", c)
+                else:
+                    sh.bad("names", "names:%s:%s" % (kind, c[2]), "dconv --from-locale %s --base 2016-03-04 -i %s %r -> %r, month %d expected" %
+                           (la, spec, nm, g, i + 1), dict(argv=argv, expected=want, observed=g), cls=c)
+    return sh
+
+
 def _dispatch(t):
+    if t[0] == "names":
+        return names_task(t[1])
     return {"cfg": config_task, "ctl": control_task, "loc": locale_pair_task}[t[0]](t[1])
 
 
@@ -288,6 +325,9 @@ def main(tier, seed):
         pairs = [(a, b) for a in parse_ok for b in allloc]
     pairs += [(None, b) for b in rng.sample(allloc, 40)] + [(a, None) for a in rng.sample(parse_ok, 40)]
     step = 20 if quick else 400
+    nl = parse_ok if not quick else sorted(set(rng.sample(parse_ok, 60) + [x for x in ("hsb_DE", "fy_DE", "nds_NL", "wo_SN") if x in parse_ok]))
+    for i in range(0, len(nl), 10):
+        tasks.append(("names", (bindir, seed * 7 + i, nl[i:i + 10])))
     for i in range(0, len(pairs), step):
         tasks.append(("loc", (bindir, seed * 49979687 + i, pairs[i:i + step], 5 if quick else 1)))
     for sh in core.pmap(_dispatch, tasks):
@@ -300,7 +340,7 @@ def main(tier, seed):
                 "injected clock and TZ are really seen (dconv today / dconv -i %d follow the clock, not TZ); 'locale-pair' = "
                 "dconv/dadd/dround/dseq with --from-locale A and/or --locale B in either order and spelling under random LANG, the text given as argument, as a stdin line or inside a -S line, name-first and number-first layouts: input "
                 "names read from A's table, output names written from B's table (data/locale is the oracle), absent option = "
-                "English. distinct_nontrivial = distinct (template, which settings differ) + (tool, from/to present, long/abbr)")
+                "English; 'names' = every month name of a locale standing alone is read as that month with --base, also where it spells a catch phrase (Now). distinct_nontrivial = distinct (template, which settings differ) + (tool, from/to present, long/abbr)")
     ctx.assumptions = ["inputs without --base that leave fields open follow the clock by design and serve as positive control only",
                        "parsing locales are those whose names are prefix-free (as in C09)",
                        "weekday names in a rounding spec are given in the --from-locale language (it governs everything parsed)"]
